@@ -132,6 +132,19 @@ def cpp_type(t: M.Type, this: Optional[str] = None) -> str:
     return ('const ' if t.const else '') + name
 
 
+def alias_arg(r: M.Ret, args: Sequence[M.Arg], this: Optional[str] = None) -> Optional[str]:
+    """A callable that takes a shared pointer to a class and returns a shared pointer of the
+    same type hands back its (first such) argument: the caller then holds two handles on one
+    object.  Everything else returns a fresh object."""
+    if r.t2 is not None or r.t1.ptr != '*' or r.t1.const:
+        return None
+    rt = cpp_type(r.t1, this)
+    for a in args:
+        if a.type.ptr == '*' and not a.type.const and cpp_type(a.type, this) == rt:
+            return a.name
+    return None
+
+
 def sig_of(args: Sequence[M.Arg]) -> str:
     return '(' + ','.join(_sig_type(a.type) for a in args) + ')'
 
@@ -174,9 +187,12 @@ class Emitter:
                 'vtrace::tname<%s>::get()' % t for t in targs)
         return 'vtrace::rec(%s, "%s", %s, {%s});' % (ent, sig_of(args), self_expr, shown)
 
-    def ret_stmt(self, r: M.Ret, entity, this):
+    def ret_stmt(self, r: M.Ret, entity, this, args=()):
         if r.t2 is None and r.t1.name == 'void' and not r.t1.ns:
             return ''
+        same = alias_arg(r, args, this)
+        if same is not None:
+            return ' return %s;' % same
         return ' return vtrace::ret<%s>::get(%du);' % (ret_cpp(r, this), h32(entity))
 
     def template_head(self, tpl: Optional[M.Template]):
@@ -241,14 +257,14 @@ class Emitter:
                 self.w('  %s%s %s(%s)%s { %s%s }' % (
                     th, ret_cpp(m.ret, this), m.name, self.args_decl(m.args, this),
                     ' const' if m.const else '', self.rec(e, m.args, 'vid_', targs, px),
-                    self.ret_stmt(m.ret, e, this)))
+                    self.ret_stmt(m.ret, e, this, m.args)))
             elif isinstance(m, M.Static):
                 th = self.template_head(m.template)
                 targs = m.template.names() if m.template else ()
                 e = ent + '::' + m.name
                 self.w('  %sstatic %s %s(%s) { %s%s }' % (
                     th, ret_cpp(m.ret, this), m.name, self.args_decl(m.args, this),
-                    self.rec(e, m.args, '0', targs, px), self.ret_stmt(m.ret, e, this)))
+                    self.rec(e, m.args, '0', targs, px), self.ret_stmt(m.ret, e, this, m.args)))
             elif isinstance(m, M.Operator):
                 e = ent + '::operator' + m.op
                 self.w('  %s operator%s(%s)%s { %s%s }' % (
@@ -293,7 +309,7 @@ class Emitter:
                 e = '::'.join(path + (it.name,))
                 self.w('%sinline %s %s(%s) { %s%s }' % (
                     th, ret_cpp(it.ret, None), it.name, self.args_decl(it.args, None),
-                    self.rec(e, it.args, '0', targs), self.ret_stmt(it.ret, e, None)))
+                    self.rec(e, it.args, '0', targs), self.ret_stmt(it.ret, e, None, it.args)))
             elif isinstance(it, M.Var):
                 t = cpp_type(it.type, None)
                 if it.type.ptr == '&':
